@@ -99,6 +99,11 @@ var targeted = []string{
 	"m := {b:[] a:[1]}\nn := {a:[] b:[\"s\"]}\nprint (typeof m) (typeof n)\n",
 	"m := {a:[] b:{} c:[[]] d:1}\nprint (typeof m) m\n",
 	"u1 := 1\nu2 := \"s\"\nfunc g a:num\n    v1 := a\n    v2 := a\nend\non key\n    w1 := 1\n    w2 := 2\nend\n",
+	// multiline literals with blank lines and comments in every position (formatter bookkeeping)
+	"a := [\n    1\n\n\n    2\n\n\n\n    3\n]\nm := {\n    a:1\n\n\n    b:2\n\n\n}\nprint a m\n",
+	"a := [ // c1\n    1 // c2\n\n\n    // c3\n    [\n\n\n        2\n\n\n        3\n    ]\n]\nprint a\n",
+	"m := {a:[\n\n\n    1\n    2\n\n\n\n] b:{\n\n\n    x:1\n\n\n}}\nprint m // trailing\n\n\n\n// end\n",
+	"print [\n\n\n    \"a\"\n\n\n    \"b\"\n] {\n\n\n    k:1\n}\nfunc f:[]num\n    return [\n        1\n\n\n        2\n    ]\nend\nprint (f)\n",
 }
 
 // Base builds item idx.
@@ -315,6 +320,15 @@ func (d *D) RunItem(idx int, ctx *core.Ctx) {
 	scheds := schedules(r, c.schedules)
 	res0, obs0 := run(sc, scheds[0], c.budget)
 	ctx.Inc("evaluations", 1)
+	if res0.FormatRepeatDiffers {
+		v := sc.Clone()
+		v.Schedule = scheds[0]
+		v.Kind = "format-repeat"
+		ctx.Violate(v, &core.Violation{Oracle: "format-repeat", Signature: "format:repeat", Expected: "formatting the same parsed program again gives the same text",
+			Observed: map[string]any{"first_difference": firstDiff(res0.Formatted[:strings.Index(res0.Formatted, "\nFORMAT-REPEAT-DIFFERS:\n")], res0.Formatted[strings.Index(res0.Formatted, "\nFORMAT-REPEAT-DIFFERS:\n")+24:])},
+			Match:    map[string]string{"observable": "format-repeat"}})
+		return
+	}
 	if res0.Accepted {
 		ctx.Inc("programs_accepted", 1)
 	} else {
@@ -479,6 +493,14 @@ func Observe(sc *core.Scenario, n int) string {
 
 // Check re-executes a disagreeing pair.
 func (d *D) Check(sc *core.Scenario) *core.Violation {
+	if sc.Kind == "format-repeat" {
+		res, _ := run(sc, sc.Schedule, cfg(sc.Tier).budget)
+		if res.FormatRepeatDiffers {
+			return &core.Violation{Oracle: "format-repeat", Signature: "format:repeat", Expected: "formatting the same parsed program again gives the same text",
+				Observed: map[string]any{}, Match: map[string]string{"observable": "format-repeat"}}
+		}
+		return nil
+	}
 	if sc.Level == "L2" {
 		if L2Check == nil {
 			return nil
